@@ -82,18 +82,23 @@ func HarnessC17PageNumber() {
 	N := c17N(maxN)
 	k := 1 + vx.Choose("k", N)
 	family := vx.Choose("family", vx.Param("families", 7))
-	deco := vx.Choose("linkdeco", 3) // decoration of the link labels: 7, [7], (7)
+	deco := vx.Choose("linkdeco", 5) // decoration of the link labels: 7, [7], (7), [ 7 ], ( 7 )
+	desc := vx.Choose("descending", 2) == 1
 	sep := []string{" ", " | ", "", "\n"}[vx.Choose("sep", 4)]
 	wrap := vx.Choose("wrap", 3)
 	cur := vx.Choose("cur", 4)
 	var sb strings.Builder
-	for i := 1; i <= N; i++ {
+	for pos := 1; pos <= N; pos++ {
+		i := pos
+		if desc {
+			i = N + 1 - pos
+		}
 		label := strconv.Itoa(i)
 		var item string
 		if i == k {
 			item = []string{label, "<span class=\"current\">" + label + "</span>", "<b>" + label + "</b>", "<strong>[" + label + "]</strong>"}[cur]
 		} else {
-			item = `<a href="` + c17URL(family, i) + `">` + []string{label, "[" + label + "]", "(" + label + ")"}[deco] + `</a>`
+			item = `<a href="` + c17URL(family, i) + `">` + []string{label, "[" + label + "]", "(" + label + ")", "[ " + label + " ]", "( " + label + " )"}[deco] + `</a>`
 		}
 		switch wrap {
 		case 1:
@@ -101,7 +106,7 @@ func HarnessC17PageNumber() {
 		case 2:
 			item = "<span>" + item + "</span>"
 		}
-		if i > 1 {
+		if pos > 1 {
 			sb.WriteString(sep)
 		}
 		sb.WriteString(item)
